@@ -15,6 +15,7 @@ package props
 
 import (
 	"fmt"
+	"sort"
 	"strings"
 	"testing"
 	"time"
@@ -404,6 +405,31 @@ func TestC03Frames(t *testing.T) {
 			n := c.Int("signed.n", 1, 12)
 			mt := core.OneOf(c, "signed.type", frame.RouterPing, frame.RouterHopPing, frame.RouterHopPingDeprecated)
 			recv, frames, b := c03Frames(c, mt, n)
+			if c.Chance("signed.explicit-times", 1, 3) {
+				// Signing times chosen by the harness: strictly increasing with the
+				// index, spread around the next multiple of 2^32 milliseconds (the
+				// 64-bit time field must be compared as a whole).
+				pr := c03NewPair(c)
+				recv, b = pr.sBA, pr.builder
+				base := time.UnixMilli(((time.Now().UnixMilli() >> 32) + 1) << 32)
+				offs := make([]int, n)
+				for i := range offs {
+					offs[i] = c.Int("signed.off", -4000, 4000)
+				}
+				sort.Ints(offs)
+				frames = frames[:0]
+				for i := 0; i < n; i++ {
+					f, err := pr.builder.NewFrameV1(pr.pa.ID.Addr.IP, pr.pb.ID.Addr.IP, mt, nil, []byte(fmt.Sprintf("payload-%04d", i)), nil)
+					if err != nil {
+						c.Fatalf("new frame: %v", err)
+					}
+					c01Sign(f, pr.pa.ID.Addr.PrivateKey, base.Add(time.Duration(offs[i]+i)*time.Millisecond))
+					data, _ := f.FrameDataWithMargins(0, 0)
+					frames = append(frames, append([]byte(nil), data...))
+					f.ReturnToPool()
+				}
+				c.Class("frame-signed/times-around-a-2^32-ms-boundary")
+			}
 			steps := c.Int("signed.len", 1, 24)
 			best := -1
 			var hist []string
